@@ -329,6 +329,27 @@ impl<'p> Ev<'p> {
         }
     }
 
+    /// True when the schema stored for recursion node `n` is a bare chain of references
+    /// leading back to `n`: the recursion never passes through a schema constructor.
+    fn unguarded(&self, n: usize) -> bool {
+        let mut cur = n;
+        for _ in 0..=self.nodes.len() {
+            match &self.nodes[cur] {
+                Some(S::Ref(name)) if name.starts_with('#') => {
+                    cur = name[1..].parse().unwrap_or(usize::MAX);
+                    if cur == n {
+                        return true;
+                    }
+                    if cur >= self.nodes.len() {
+                        return false;
+                    }
+                }
+                _ => return false,
+            }
+        }
+        true
+    }
+
     fn decl(&mut self, module: usize, idx: usize, use_ann: Ann) -> R<(Val, Ann)> {
         let Stmt::Let {
             anns,
@@ -407,6 +428,9 @@ impl<'p> Ev<'p> {
             self.recursion_points += 1;
             let sch = self.to_schema(&v, &a)?;
             self.nodes[n] = Some(sch.s);
+            if self.unguarded(n) {
+                return stuck("unguarded recursion");
+            }
             return Ok((Val::Node(n), ann));
         }
         Ok((v, a))
@@ -948,6 +972,9 @@ impl<'p> Ev<'p> {
                 let (v, a) = self.eval(body, &renv, ann)?;
                 let s = self.to_schema(&v, &a)?;
                 self.nodes[n] = Some(s.s);
+                if self.unguarded(n) {
+                    return stuck("unguarded recursion");
+                }
                 self.recursion_points += 1;
                 Ok((Val::Node(n), Mapping::new()))
             }
@@ -1154,4 +1181,226 @@ fn val_name(v: &Val) -> &'static str {
 /// The reference meaning of a program.
 pub fn meaning(p: &Program) -> Result<(Doc, usize), Stop> {
     Ev::new(p).program()
+}
+
+// ===========================================================================
+// Reference resolver: identifier uses -> binders, lexically.
+
+#[derive(Clone, Debug, PartialEq, Eq)]
+pub enum Bind {
+    /// Index (into `Printed::occs`) of the binder occurrence.
+    Binder(usize),
+    Builtin,
+    Unbound,
+    Unspecified(&'static str),
+}
+
+#[derive(Clone, Debug, Default)]
+pub struct Resolution {
+    /// For every occurrence index of kind `Use`: what it denotes.
+    pub uses: Vec<(usize, Bind)>,
+    pub duplicates: bool,
+    pub unbound: bool,
+    pub unspecified: Option<&'static str>,
+}
+
+struct Res<'a> {
+    p: &'a Program,
+    printed: &'a Printed,
+    next: usize,
+    out: Resolution,
+    /// module -> (name -> occ index of the declaration name); None value = duplicate
+    decls: Vec<HashMap<String, usize>>,
+}
+
+impl Res<'_> {
+    fn take(&mut self, kind: OccKind, text: &str) -> usize {
+        let i = self.next;
+        let o = &self.printed.occs[i];
+        assert!(o.kind == kind && o.text == text, "resolver and printer disagree at {i}: {o:?} vs {kind:?} {text}");
+        self.next += 1;
+        i
+    }
+
+    fn lookup(&mut self, module: usize, q: &Option<String>, n: &str, locals: &[(String, usize)]) -> Bind {
+        if q.is_none() {
+            if let Some((_, i)) = locals.iter().rev().find(|(k, _)| k == n) {
+                return Bind::Binder(*i);
+            }
+            if let Some(i) = self.decls[module].get(n) {
+                if n == "concat" {
+                    return Bind::Unspecified("declaration shadows a built-in");
+                }
+                if !self.imported(module, &None, n).is_empty() {
+                    return Bind::Unspecified("declaration collides with an unqualified import");
+                }
+                return Bind::Binder(*i);
+            }
+        }
+        let found = self.imported(module, q, n);
+        match found.len() {
+            0 => {}
+            1 => {
+                if q.is_none() && n == "concat" {
+                    return Bind::Unspecified("import shadows a built-in");
+                }
+                return Bind::Binder(found[0]);
+            }
+            _ => return Bind::Unspecified("two imports provide the same name"),
+        }
+        if q.is_none() && n == "concat" {
+            return Bind::Builtin;
+        }
+        Bind::Unbound
+    }
+
+    fn imported(&self, module: usize, q: &Option<String>, n: &str) -> Vec<usize> {
+        let mut found = Vec::new();
+        for s in self.p.modules[module].stmts.iter() {
+            if let Stmt::Use(path, qual) = s {
+                if qual == q {
+                    if let Some(mi) = module_index(self.p, module, path) {
+                        if let Some(i) = self.decls[mi].get(n) {
+                            if !found.contains(i) {
+                                found.push(*i);
+                            }
+                        }
+                    }
+                }
+            }
+        }
+        found
+    }
+
+    fn var(&mut self, module: usize, q: &Option<String>, n: &str, locals: &[(String, usize)]) {
+        if let Some(q) = q {
+            self.take(OccKind::UseQualifier, q);
+        }
+        let i = self.take(OccKind::Use, n);
+        let b = self.lookup(module, q, n, locals);
+        match &b {
+            Bind::Unbound => self.out.unbound = true,
+            Bind::Unspecified(w) => self.out.unspecified = Some(w),
+            _ => {}
+        }
+        self.out.uses.push((i, b));
+    }
+
+    fn list(&mut self, m: usize, v: &[E], l: &mut Vec<(String, usize)>) {
+        for e in v {
+            self.expr(m, e, l);
+        }
+    }
+
+    fn expr(&mut self, m: usize, e: &E, l: &mut Vec<(String, usize)>) {
+        match e {
+            E::Prim(_) | E::Str(_) | E::Num(_) | E::StatusRange(_) => {}
+            E::Var(q, n) => self.var(m, q, n, l),
+            E::App(q, f, args) => {
+                self.var(m, q, f, l);
+                self.list(m, args, l);
+            }
+            E::Obj(v) | E::Op(_, v) => self.list(m, v, l),
+            E::Arr(i) | E::Paren(i) | E::Mark(i, _) | E::Prop(_, _, i) | E::Ann(_, i, _) => self.expr(m, i, l),
+            E::Content(metas, body) => {
+                for (_, v) in metas {
+                    self.expr(m, v, l);
+                }
+                if let Some(b) = body {
+                    self.expr(m, b, l);
+                }
+            }
+            E::Uri(segs, params) => {
+                for s in segs {
+                    if let Seg::Var(v) = s {
+                        self.expr(m, v, l);
+                    }
+                }
+                if let Some(ps) = params {
+                    self.list(m, ps, l);
+                }
+            }
+            E::Xfer { params, domain, range, .. } => {
+                if let Some(ps) = params {
+                    self.list(m, ps, l);
+                }
+                if let Some(d) = domain {
+                    self.expr(m, d, l);
+                }
+                self.expr(m, range, l);
+            }
+            E::Rel(u, xs) => {
+                self.expr(m, u, l);
+                self.list(m, xs, l);
+            }
+            E::Rec(x, body) => {
+                let i = self.take(OccKind::RecBinder, x);
+                l.push((x.clone(), i));
+                self.expr(m, body, l);
+                l.pop();
+            }
+        }
+    }
+}
+
+/// Resolves every identifier use of a printed program.
+pub fn resolve(p: &Program, printed: &Printed) -> Resolution {
+    // First pass: declaration names per module (order-free), in print order.
+    let mut decls: Vec<HashMap<String, usize>> = vec![HashMap::new(); p.modules.len()];
+    let mut duplicates = false;
+    for (i, o) in printed.occs.iter().enumerate() {
+        if o.kind == OccKind::DeclName && decls[o.module].insert(o.text.clone(), i).is_some() {
+            duplicates = true;
+        }
+    }
+    let mut r = Res {
+        p,
+        printed,
+        next: 0,
+        out: Resolution {
+            duplicates,
+            ..Default::default()
+        },
+        decls,
+    };
+    // Collisions the property does not order, whether or not the name is ever used.
+    for mi in 0..p.modules.len() {
+        let names: Vec<String> = r.decls[mi].keys().cloned().collect();
+        for n in names {
+            if n == "concat" {
+                r.out.unspecified = Some("declaration shadows a built-in");
+            } else if !r.imported(mi, &None, &n).is_empty() {
+                r.out.unspecified = Some("declaration collides with an unqualified import");
+            }
+        }
+    }
+    for (mi, m) in p.modules.iter().enumerate() {
+        for s in m.stmts.iter() {
+            match s {
+                Stmt::Use(_, q) => {
+                    if let Some(q) = q {
+                        r.take(OccKind::ImportQualifier, q);
+                    }
+                }
+                Stmt::Let { name, params, body, .. } => {
+                    r.take(OccKind::DeclName, name);
+                    let mut locals: Vec<(String, usize)> = Vec::new();
+                    for x in params {
+                        let i = r.take(OccKind::Param, x);
+                        if locals.iter().any(|(k, _)| k == x) {
+                            r.out.unspecified = Some("duplicate parameter name");
+                        }
+                        locals.push((x.clone(), i));
+                    }
+                    r.expr(mi, body, &mut locals);
+                }
+                Stmt::Res(e) => {
+                    let mut locals = Vec::new();
+                    r.expr(mi, e, &mut locals);
+                }
+            }
+        }
+    }
+    assert_eq!(r.next, printed.occs.len(), "resolver did not consume every occurrence");
+    r.out
 }
